@@ -136,7 +136,7 @@ fn session_world(case: UciCase) -> (Option<bool>, usize) {
             }
             UStep::NextTimer => {
                 if let Some(d) = world::next_deadline() {
-                    let now = world::now_ns();
+                    let now = world::peek_ns();
                     world::tick(d.saturating_sub(now));
                 }
             }
@@ -155,7 +155,7 @@ fn session_world(case: UciCase) -> (Option<bool>, usize) {
             // nothing runnable and the loop has not returned: only a timer could help
             match world::next_deadline() {
                 Some(d) if guard < 100_000 => {
-                    let now = world::now_ns();
+                    let now = world::peek_ns();
                     world::tick(d.saturating_sub(now).max(1));
                     guard += 1;
                 }
